@@ -223,13 +223,36 @@ func (E *Engine) evalInvariant(fr *Frame, st *State, lp *loop, inv *ssa.Function
 
 // resolveName finds the value of the target function's variable `name` at the loop header.
 func (E *Engine) resolveName(fr *Frame, st *State, lp *loop, name string) Val {
+	v := E.resolveNameAt(fr, st, lp.header, 0, name)
+	if v == nil {
+		var avail []string
+		for _, phi := range headerPhis(lp.header) {
+			avail = append(avail, phi.Comment)
+		}
+		E.fail("invariant for %s loop %d: cannot resolve variable %q at the loop header (loop-carried: %s)", fr.fn, lp.ordinal, name, strings.Join(avail, ","))
+	}
+	return v
+}
+
+// resolveNameAt finds the value of the function's variable `name` just before instruction index
+// upto of block blk (0: at the start of the block, after its phis).
+func (E *Engine) resolveNameAt(fr *Frame, st *State, blk *ssa.BasicBlock, upto int, name string) Val {
 	fn := fr.fn
-	// loop-carried variables
-	for _, phi := range headerPhis(lp.header) {
+	// latest reference inside the block itself
+	for i := upto - 1; i >= 0 && i < len(blk.Instrs); i-- {
+		if d, ok := blk.Instrs[i].(*ssa.DebugRef); ok {
+			if v := E.debugRefValue(fr, st, d, name); v != nil {
+				return v
+			}
+		}
+	}
+	// variables merged at this block
+	for _, phi := range headerPhis(blk) {
 		if phi.Comment == name {
 			return E.value(fr, phi)
 		}
 	}
+	lp := &loop{header: blk}
 	for _, p := range fn.Params {
 		if p.Name() == name {
 			// parameters that are reassigned become phis/allocs and are found below via DebugRef first
@@ -248,12 +271,35 @@ func (E *Engine) resolveName(fr *Frame, st *State, lp *loop, name string) Val {
 	if v := E.debugLookup(fr, st, lp, name); v != nil {
 		return v
 	}
-	var avail []string
-	for _, phi := range headerPhis(lp.header) {
-		avail = append(avail, phi.Comment)
-	}
-	E.fail("invariant for %s loop %d: cannot resolve variable %q at the loop header (loop-carried: %s)", fn, lp.ordinal, name, strings.Join(avail, ","))
 	return nil
+}
+
+// debugRefValue: the value a DebugRef gives to the variable name, or nil.
+func (E *Engine) debugRefValue(fr *Frame, st *State, d *ssa.DebugRef, name string) Val {
+	obj := d.Object()
+	if obj == nil || obj.Name() != name {
+		return nil
+	}
+	if _, isVar := obj.(*types.Var); !isVar {
+		return nil
+	}
+	if _, defined := fr.env[d.X]; !defined {
+		if _, isConst := d.X.(*ssa.Const); !isConst {
+			if _, isG := d.X.(*ssa.Global); !isG {
+				return nil
+			}
+		}
+	}
+	if d.IsAddr {
+		switch a := E.value(fr, d.X).(type) {
+		case *Term:
+			return E.loadObj(st, a, d.X.Type().(*types.Pointer).Elem(), fr.tenv)
+		case *Addr:
+			return E.loadAddr(st, a)
+		}
+		return nil
+	}
+	return E.value(fr, d.X)
 }
 
 // debugLookup walks the dominator chain of the header upwards looking for the latest DebugRef of a
@@ -289,6 +335,14 @@ func (E *Engine) debugLookup(fr *Frame, st *State, lp *loop, name string) Val {
 				continue
 			}
 			return E.value(fr, d.X)
+		}
+		// a variable merged at this block: its phi is the reaching definition
+		for _, phi := range headerPhis(b) {
+			if phi.Comment == name {
+				if _, defined := fr.env[phi]; defined {
+					return E.value(fr, phi)
+				}
+			}
 		}
 	}
 	return nil
